@@ -273,7 +273,7 @@ def replay_C18(ctx):
 
 # ------------------------------------------------------------------------------------------------ pub properties (shared run)
 
-import hashlib, subprocess
+import hashlib, subprocess, glob, time
 
 
 def tree_key(extra):
@@ -298,8 +298,8 @@ def parse_idx_tuples(s):
     return out
 
 
-PUB_STD = {"quick": ["-families", "inbox,outbox,get", "-n", "6", "-faults", "single", "-maxruns", "3000"],
-           "thorough": ["-families", "inbox,outbox,get", "-n", "40", "-faults", "single", "-maxruns", "30000"]}
+PUB_STD = {"quick": ["-families", "inbox,outbox,get", "-n", "6", "-faults", "single", "-maxruns", "3000", "-shards", "8"],
+           "thorough": ["-families", "inbox,outbox,get", "-n", "40", "-faults", "single", "-maxruns", "30000", "-shards", "14"]}
 
 
 def pub_run(ctx, tag, args, cases_tpl="PubMonitorCases.v"):
@@ -307,7 +307,9 @@ def pub_run(ctx, tag, args, cases_tpl="PubMonitorCases.v"):
     okb, outb = harness_build(ctx)
     if not okb:
         return {"error": "harness-build", "out": outb}
-    okm, outm, _ = coq_make(ctx, ["Pub/Replay.vo", "Pub/Monitors.vo"])
+    tpl = open(os.path.join(ROOT, "coq", "Run", cases_tpl)).read()
+    mods = sorted(set(m.replace(".", "/") + ".vo" for l in re.findall(r"^From Verif Require Import ([^\n]*?)\.$", tpl, re.M) for m in l.split()))
+    okm, outm, _ = coq_make(ctx, ["Pub/Replay.vo", "Pub/Monitors.vo"] + mods)
     if not okm:
         return {"error": "model-build", "out": outm}
     key = tree_key((tag, args, ctx.seed, cases_tpl))
@@ -322,27 +324,50 @@ def pub_run(ctx, tag, args, cases_tpl="PubMonitorCases.v"):
     ctx.note("harness pub %s rc=%d (%.1fs) %s" % (tag, rc, dt, out.strip()[-80:]))
     if rc != 0:
         return {"error": "harness-run", "out": out[-3000:]}
-    shutil.copyfile(os.path.join(ROOT, "coq", "Run", cases_tpl), os.path.join(cdir, "cases.v"))
-    t0 = time.time()
-    cmd = ["coqc", "-Q", os.path.join(ROOT, "coq"), "Verif", "-Q", cdir, "Run", "observed.v"]
-    rc1, out1, _ = sh(cmd, cwd=cdir, timeout=3000)
-    rc2, out2, _ = sh(cmd[:-1] + ["cases.v"], cwd=cdir, timeout=3000) if rc1 == 0 else (1, out1, 0)
-    ctx.note("coqc replay+monitors rc=%d (%.1fs)" % (rc2, time.time() - t0))
-    if rc2 != 0:
-        return {"error": "cases-eval", "out": (out1 + out2)[-3000:]}
-    defs = parse_defs(out2)
     summ = json.load(open(os.path.join(cdir, "summary.json")))
-    res = {"defs": {k: parse_idx_tuples(v) for k, v in defs.items() if k.endswith("_bad")},
-           "n": int(re.sub(r"\D", "", defs.get("n_observed", "0").split(":")[0]) or 0),
+    t0 = time.time()
+    shard_dirs = sorted(d for d in glob.glob(os.path.join(cdir, "shard_*")) if os.path.isdir(d))
+    units = [(d, json.load(open(os.path.join(d, "index.json")))) for d in shard_dirs] or [(cdir, None)]
+    procs = []
+    for d, _ in units:
+        shutil.copyfile(os.path.join(ROOT, "coq", "Run", cases_tpl), os.path.join(d, "cases.v"))
+        base = "coqc -Q %s Verif -Q %s Run " % (os.path.join(ROOT, "coq"), d)
+        procs.append(subprocess.Popen("%sobserved.v && %scases.v" % (base, base), shell=True, cwd=d, stdout=subprocess.PIPE, stderr=subprocess.STDOUT))
+    outs = []
+    for pr in procs:
+        try:
+            o, _ = pr.communicate(timeout=3000)
+        except subprocess.TimeoutExpired:
+            pr.kill()
+            o, _ = pr.communicate()
+        outs.append((pr.returncode, o.decode("utf-8", "replace")))
+    rc2 = max(rc for rc, _ in outs)
+    ctx.note("coqc replay+monitors (%d file%s) rc=%d (%.1fs)" % (len(units), "s" if len(units) > 1 else "", rc2, time.time() - t0))
+    if rc2 != 0:
+        return {"error": "cases-eval", "out": "\n".join(o for rc, o in outs if rc != 0)[-3000:]}
+    bad, stats, n = {}, {}, 0
+    for (d, idx), (_, o) in zip(units, outs):
+        defs = parse_defs(o)
+        n += int(re.sub(r"\D", "", defs.get("n_observed", "0").split(":")[0]) or 0)
+        for k, v in defs.items():
+            if k.endswith("_bad"):
+                bad.setdefault(k, []).extend((i if idx is None else idx[i], f) for (i, f) in parse_idx_tuples(v))
+            elif k.endswith("_stats"):
+                nums = [int(x) for x in re.findall(r"\d+", v.split(":")[0])]
+                stats[k] = [a + b for a, b in zip(stats[k], nums)] if k in stats else nums
+    for k in bad:
+        bad[k].sort(key=lambda x: x[0])
+    res = {"defs": bad, "n": n,
            "summary": {k: summ[k] for k in ("evaluations", "distinct_nontrivial", "rule", "distribution")},
-           "stats": {k: re.sub(r"\s+", " ", v.split(":")[0]).strip() for k, v in defs.items() if k.endswith("_stats")},
+           "stats": {k: "(" + ", ".join(str(x) for x in v) + ")" for k, v in stats.items()},
            "runs": summ["extra"]["runs"], "dir": cdir}
     json.dump(res, open(res_path, "w"))
-    for fn in ("observed.vo", "observed.glob", "cases.vo", "cases.glob"):
-        try:
-            os.remove(os.path.join(cdir, fn))
-        except OSError:
-            pass
+    for d, _ in units:
+        for fn in ("observed.vo", "observed.glob", "cases.vo", "cases.glob"):
+            try:
+                os.remove(os.path.join(d, fn))
+            except OSError:
+                pass
     return res
 
 
@@ -404,6 +429,8 @@ def pub_property(ctx, pid, prop_file, model_files, judge, family_filter=None, ru
     relevant = [(i, f) for (i, f) in disagreements if (f[0] == "1" and "result" in rel) or (f[0] in ("2", "3") and (f[2] in rel or f[0] == "3"))]
     ctx.coverage["traces_validated_against_impl"] = len(sel) - len(disagreements)
     ctx.coverage["disagreements"] = {"replay_total": len(disagreements), "replay_relevant_to_property": len(relevant), "monitor_flags": nbad}
+    if disagreements and not relevant:
+        relevant = disagreements
     if relevant and not found:
         i, f = relevant[0]
         ctx.violation("%s:replay-drift" % pid, "the model of package pub no longer replays the recorded run",
@@ -414,6 +441,9 @@ def pub_property(ctx, pid, prop_file, model_files, judge, family_filter=None, ru
     return finish(ctx, "proof")
 
 
+SHAPE = {"quick": ["-families", "shape", "-n", "1", "-faults", "none", "-maxruns", "40000", "-shards", "8"],
+         "thorough": ["-families", "shape", "-n", "4", "-faults", "none", "-maxruns", "40000", "-shards", "14"]}
+SHAPE_RULE = "; structural variants: each of actor / object / target / to / cc / bto / bcc / audience / id / type / inReplyTo / attributedTo of a valid request of every inbox and outbox type made absent, empty, doubled, a plain string, an embedded value without id"
 GATE = {"quick": ["-families", "gate", "-gate", "600"], "thorough": ["-families", "gate", "-gate", "0", "-maxruns", "40000"]}
 
 
@@ -425,7 +455,7 @@ def check_C07(ctx):
                          "modelled, not verified: http.Header.Set is not an observable call; header strings are compared byte for byte; the handler takes no authentication (documented)"],
                         {"monitors": ["gate_bad"], "classify": classify,
                          "rule": "C07 product {entry} x {protocols} x {auth} x {block} x {method} x {12 header variants} x {4 bodies}: covering sample in the quick tier, complete in the thorough tier; plus all std scenarios with single faults"},
-                        run_specs=[("gate", GATE[ctx.tier]), ("std", PUB_STD[ctx.tier])])
+                        run_specs=[("gate", GATE[ctx.tier]), ("shape", SHAPE[ctx.tier]), ("std", PUB_STD[ctx.tier])])
 
 
 def replay_C07(ctx):
@@ -440,7 +470,7 @@ def check_C10(ctx):
                          "modelled, not verified: faults of the ResponseWriter itself are outside the quantifier; header writes are observed when the status is written"],
                         {"monitors": ["outcome_bad"], "classify": classify,
                          "rule": "C07 request product plus every standard scenario with every single fault; judged by the strict outcome monitor (201 => Location = first generated id)"},
-                        run_specs=[("gate", GATE[ctx.tier]), ("std", PUB_STD[ctx.tier])])
+                        run_specs=[("gate", GATE[ctx.tier]), ("shape", SHAPE[ctx.tier]), ("std", PUB_STD[ctx.tier])])
 
 
 def replay_C10(ctx):
@@ -450,14 +480,15 @@ def replay_C10(ctx):
 def check_C09(ctx):
     def classify(name, fields, run):
         tag, ident, loaded = fields[1], fields[2], fields[3]
-        if tag == "relock" and loaded == "true" and run["family"].startswith("inbox:"):
+        if tag == "relock" and loaded == "true" and run["family"].startswith(("inbox:", "shape:inbox:", "forward:")):
             return ("C09:relock-forwarding-collection", "InboxForwarding re-locks an owned collection whose deferred lock it still holds")
         return ("C09:%s:%s" % (tag, run["family"]), "%s (faults %s): %s of %s" % (run["family"], run["faults"], tag, ident))
     return pub_property(ctx, "C09", "Properties/C09.v",
                         ["Pub/*.v (model of every function of package pub that touches the Database), Pub/Monitors.v lock_step_gen",
                          "modelled, not verified: Go's defer (per-iteration closures as bracket, function-level defers of InboxForwarding as a pending list released in reverse order at return); Unlock's own error is ignored as in the code"],
                         {"monitors": ["lock_bad"], "classify": classify,
-                         "rule": "every standard scenario fault-free and with every single fallible call failing (thorough: more scenarios); judged by the strict lock monitor"})
+                         "rule": "every standard scenario fault-free and with every single fallible call failing (thorough: more scenarios); judged by the strict lock monitor" + SHAPE_RULE},
+                        run_specs=[("shape", SHAPE[ctx.tier]), ("std", PUB_STD[ctx.tier])])
 
 
 def replay_C09(ctx):
@@ -510,8 +541,8 @@ def check_C05(ctx):
                          "modelled, not verified: the application's Database is assumed to return from GetOutbox what SetOutbox last stored (the history theorem's premise); Go map iteration order in the Social Create normalisation is a permutation parameter"],
                         {"monitors": ["order_bad", "create_bad", "history_bad"], "classify": classify,
                          "rule": "every standard outbox / Send scenario with every single fault, plus sequences of 1..8 posts to two outboxes against one evolving world (some posts rejected, some failing at a random call); judged by the ordering monitor, the fresh-id check and the listing theorem's equation"},
-                        family_filter=lambda f: f.startswith(("outbox:", "send:", "seq:", "deliver:")),
-                        run_specs=[("seq", ["-families", "seq", "-n", n, "-faults", "none", "-maxruns", "6000"]), ("std", PUB_STD[ctx.tier])])
+                        family_filter=lambda f: f.startswith(("outbox:", "send:", "seq:", "deliver:", "shape:outbox:")),
+                        run_specs=[("shape", SHAPE[ctx.tier]), ("seq", ["-families", "seq", "-n", n, "-faults", "none", "-maxruns", "6000"]), ("std", PUB_STD[ctx.tier])])
 
 
 def replay_C05(ctx):
@@ -524,10 +555,10 @@ def check_C16(ctx):
     return pub_property(ctx, "C16", "Properties/C16.v",
                         ["Pub/EffectSpec.v (update_merge / to_tombstone / add_spec / remove_spec / like_spec), Pub/Soc.v (update, delete, add_cb, remove_cb, like, block), Pub/Util.v (add, remove), Pub/Monitors.v eff_step",
                          "modelled, not verified: streams.ToType on the merged member map (decoding; C01) is the model's to_type; time formatting (C20)"],
-                        {"monitors": ["effects_bad"], "classify": classify,
+                        {"monitors": ["effects_bad", "targets_bad"], "classify": classify,
                          "rule": "stored objects against random partial updates with overlapping / disjoint / null members; 1..3 objects and targets per Add/Remove (owned, not owned, ordered, unordered, duplicates); Like and Block with 1..3 objects; object / target absent; every single fault; each Database.Update of the real run compared with the effect function applied to what the real Get returned"},
-                        family_filter=lambda f: f.startswith(("outbox:", "send:", "effects:")),
-                        run_specs=[("effects", ["-families", "effects", "-n", "10" if ctx.tier == "quick" else "150", "-faults", "single", "-maxruns", "20000"]), ("std", PUB_STD[ctx.tier])])
+                        family_filter=lambda f: f.startswith(("outbox:", "send:", "effects:", "shape:outbox:")),
+                        run_specs=[("shape", SHAPE[ctx.tier]), ("effects", ["-families", "effects", "-n", "10" if ctx.tier == "quick" else "150", "-faults", "single", "-maxruns", "20000"]), ("std", PUB_STD[ctx.tier])])
 
 
 def replay_C16(ctx):
@@ -544,17 +575,17 @@ def diverge_classify(pid):
 def check_C04(ctx):
     base = diverge_classify("C04")
     def classify(name, fields, run):
-        if name == "diverge_bad" and not run["family"].startswith("inbox:"):
+        if name == "diverge_bad" and not run["family"].startswith(("inbox:", "shape:inbox:")):
             return (None, None)
         return base(name, fields, run)
     return pub_property(ctx, "C04", "Properties/C04.v",
                         ["Pub/Fed.v (every default callback, post_inbox), Pub/Util.v add / remove, Pub/EffectSpec.v, Pub/Monitors.v own_step / eff_step",
                          "the judge 'diverge' reports a run on which the implementation's stored values, deliveries, callbacks or response differ from the model's, whose effects the theorems characterise",
                          "modelled, not verified: the fetch of an object given by IRI is the recorded Transport.Dereference answer decoded by the model's to_type"],
-                        {"monitors": ["fed_bad", "diverge_bad"], "classify": classify,
+                        {"monitors": ["fed_bad", "diverge_bad", "targets_bad"], "classify": classify,
                          "rule": "each handled activity type with 1..3 objects / targets / actors as IRIs or embedded values, owned or not, ordered / unordered collections, absent or present likes / shares, OnFollow in {nothing, accept, reject}, no / wrapped / overriding application callback; every single fault; own_step / eff_step / quiet predicates evaluated on the callback segment of each real trace"},
-                        family_filter=lambda f: f.startswith("inbox:"),
-                        run_specs=[("fedfocus", ["-families", "fedfocus", "-n", "10" if ctx.tier == "quick" else "200", "-faults", "none", "-maxruns", "20000"]), ("std", PUB_STD[ctx.tier])])
+                        family_filter=lambda f: f.startswith(("inbox:", "shape:inbox:")),
+                        run_specs=[("shape", SHAPE[ctx.tier]), ("fedfocus", ["-families", "fedfocus", "-n", "10" if ctx.tier == "quick" else "200", "-faults", "none", "-maxruns", "20000"]), ("std", PUB_STD[ctx.tier])])
 
 
 def replay_C04(ctx):
@@ -564,7 +595,7 @@ def replay_C04(ctx):
 def check_C06(ctx):
     base = diverge_classify("C06")
     def classify(name, fields, run):
-        if name == "diverge_bad" and not run["family"].startswith(("inbox:Update", "inbox:Delete", "inbox:Accept", "inbox:Undo", "authority:")):
+        if name == "diverge_bad" and not run["family"].startswith(("inbox:Update", "inbox:Delete", "inbox:Accept", "inbox:Undo", "authority:", "shape:inbox:Update", "shape:inbox:Delete", "shape:inbox:Accept", "shape:inbox:Undo")):
             return (None, None)
         return base(name, fields, run)
     return pub_property(ctx, "C06", "Properties/C06.v",
@@ -572,8 +603,8 @@ def check_C06(ctx):
                          "modelled, not verified: url.Parse's host extraction is the model's host_of (authority without userinfo, compared as written), tied by replay on hosts differing in port, case and sub-domain"],
                         {"monitors": ["authority_bad", "diverge_bad"], "classify": classify,
                          "rule": "hosts equal / different / differing in port, case or sub-domain for the activity id and 1..3 object ids as IRIs or embedded; Accept with the stored Follow present, absent, of another type, by another actor, lacking the accepting actor, embedded or by IRI; Undo with equal / subset / superset / disjoint actor sets; 1..3 actors as IRI or embedded, blocked or not; single faults"},
-                        family_filter=lambda f: f.startswith(("inbox:", "authority:")),
-                        run_specs=[("authority", ["-families", "authority", "-n", "12" if ctx.tier == "quick" else "200", "-faults", "none", "-maxruns", "20000"]), ("std", PUB_STD[ctx.tier])])
+                        family_filter=lambda f: f.startswith(("inbox:", "authority:", "shape:inbox:")),
+                        run_specs=[("shape", SHAPE[ctx.tier]), ("authority", ["-families", "authority", "-n", "12" if ctx.tier == "quick" else "200", "-faults", "none", "-maxruns", "20000"]), ("std", PUB_STD[ctx.tier])])
 
 
 def replay_C06(ctx):
@@ -609,7 +640,9 @@ def check_C08(ctx):
     cov_from_proof(ctx, pr, ["Conc/Model.v (threads of critical sections at lock / read / write / unlock granularity), Pub/*.v for the per-thread replay",
                              "modelled, not verified: that each collection update of package pub is one critical section of the Conc model rests on the C09 / C05 / C04 / C16 / C17 theorems about the sequential model programs (bracketing by the id's lock; value written = id put at the front of the value read) and is exercised, not proved, for interleavings; the Go scheduler is replaced by a deterministic cooperative one switching only at Database / Transport / callback calls"])
     okb, outb = harness_build(ctx)
-    okm, outm, _ = coq_make(ctx, ["Pub/Replay.vo", "Pub/Monitors.vo"])
+    tpl = open(os.path.join(ROOT, "coq", "Run", "ConcCases.v")).read()
+    mods = sorted(set(m.replace(".", "/") + ".vo" for l in re.findall(r"^From Verif Require Import ([^\n]*?)\.$", tpl, re.M) for m in l.split()))
+    okm, outm, _ = coq_make(ctx, ["Pub/Replay.vo", "Pub/Monitors.vo"] + mods)
     found = False
     if not okb or not okm:
         ctx.violation("C08:build", "the concurrency run could not be built", {"kind": "build", "output": (outb if not okb else outm)[-3000:], "unchecked": "correspondence C08"}, nofail=True)
@@ -841,14 +874,15 @@ def replay_C15(ctx):
 
 def check_C03(ctx):
     def classify(name, fields, run):
-        return ("C03:%s:%s" % (run["family"].split(":")[0], "payload" if "payload" in fields[1] else "body"), "%s (faults %s): %s" % (run["family"], run["faults"], fields[1]))
+        return ("C03:%s:%s" % (run["family"].split(":")[0], "payload" if "payload" in fields[1] else ("not-reached" if "not resolved" in fields[1] else "body")), "%s (faults %s): %s" % (run["family"], run["faults"], fields[1]))
     n = "60" if ctx.tier == "quick" else "600"
     return pub_property(ctx, "C03", "Properties/C03.v",
                         ["Pub/Util.v strip_hidden / clear_sensitive / no_hidden, Pub/Calls.v streams_serialize, Pub/SideEffect.v deliver",
                          "partial: that the activity reaching Deliver has no bare nested array among its object elements (flat) is shown for the generated scenarios by the replay, not proved through wrapInCreate / AddNewIDs / normalisation; members named bto/bcc on values whose type lacks these properties (Link family, unknown types) are extension members outside the statement"],
-                        {"monitors": ["hidden_bad"], "classify": classify,
+                        {"monitors": ["hidden_bad", "reached_bad"], "classify": classify,
                          "rule": "all outbox/Send scenarios (every activity type, bare objects, 1..3 embedded objects with any mixture of the five addressing properties as IRIs or embedded actors, Social only / both), automatic Accept/Reject, served values with bto/bcc at object depth 0..2; single faults"},
-                        run_specs=[("std", PUB_STD[ctx.tier]), ("get", ["-families", "get,gettypes", "-n", n, "-faults", "single", "-maxruns", "6000"])])
+                        run_specs=[("hidden", ["-families", "hidden", "-n", "42" if ctx.tier == "quick" else "420", "-faults", "single", "-maxruns", "6000", "-shards", "4"]),
+                                   ("std", PUB_STD[ctx.tier]), ("get", ["-families", "get,gettypes", "-n", n, "-faults", "single", "-maxruns", "6000"])])
 
 
 def replay_C03(ctx):
